@@ -649,9 +649,11 @@ int vp_main(int argc, char **argv, const struct vp_harness *h)
 				snprintf(t1, sizeof t1, "%s", me->trace);
 				r2 = run_single(S->viol[i].c, S->viol[i].len, 1, crash, sizeof crash);
 				if (r1 != 1 || r2 != 1 || strncmp(t1, me->trace, sizeof t1 - 1)) {
+					char cs[300]; int k, l = 0;
+					for (k = 0; k < S->viol[i].len && l < 280; k++) l += snprintf(cs + l, sizeof cs - l, "%d,", S->viol[i].c[k]);
 					S->broken = 1;
 					snprintf(S->broken_msg, sizeof S->broken_msg,
-						 "failure not reproducible on isolated replay (r1=%d r2=%d): %.600s", r1, r2, S->viol[i].msg);
+						 "failure not reproducible on isolated replay (r1=%d r2=%d) choices=[%s]: %.500s", r1, r2, cs, S->viol[i].msg);
 					continue;
 				}
 				snprintf(path, sizeof path, "%s/%s", replays_dir, H->property);
